@@ -66,6 +66,9 @@ class ExplorerScriptSsbDecompiler:
     indent: int
     _line_number: int
     labels_already_printed: list[int] = []
+    # The ids of all labels that were written / that written jumps and calls refer to.
+    labels_written: set[int]
+    labels_referenced: set[int]
     smb: SourceMapBuilder | None
     performance_progress_list_var_name: str
     dungeon_mode_constants: DungeonModeConstants
@@ -95,6 +98,8 @@ class ExplorerScriptSsbDecompiler:
         self.indent = 0
         self._line_number = 1
         self.labels_already_printed = []
+        self.labels_written = set()
+        self.labels_referenced = set()
         self.smb = None
         self.performance_progress_list_var_name = performance_progress_list_var_name
         self.dungeon_mode_constants = dungeon_mode_constants
@@ -105,6 +110,8 @@ class ExplorerScriptSsbDecompiler:
         self._output = ""
         self.indent = 0
         self.labels_already_printed = []
+        self.labels_written = set()
+        self.labels_referenced = set()
         self._line_number = 1
         self.smb = SourceMapBuilder()
 
@@ -149,6 +156,10 @@ class ExplorerScriptSsbDecompiler:
                     self.named_coroutines[r_id] if r_id in self.named_coroutines else None,
                 )
                 RoutineWriteHandler(self, r_id, r_info, r_graph).write_content()
+
+            # A jump or call to a label that was not written anywhere (eg. because the code there can not be reached
+            # from the start of its routine) would not compile: this script can not be written as ExplorerScript.
+            assert self.labels_referenced <= self.labels_written, "A label that is jumped to was not written."
 
             return self._output, self.smb.build()
 
@@ -200,14 +211,26 @@ class ExplorerScriptSsbDecompiler:
     def write_hold(self) -> None:
         self.write_stmnt("hold;")
 
+    def write_label(self, label_id: int) -> None:
+        self.labels_written.add(label_id)
+        self.write_stmnt(f"@label_{label_id};")
+
+    def write_call(self, label_id: int) -> None:
+        self.labels_referenced.add(label_id)
+        self.write_stmnt(f"call @label_{label_id};")
+
+    def write_jump(self, label_id: int) -> None:
+        self.labels_referenced.add(label_id)
+        self.write_stmnt(f"jump @label_{label_id};")
+
     def write_label_jump(self, label_id: int, previous_op: SsbOperation) -> None:
         # Depending on what the previous operation was, this has to be printed differently
         if not isinstance(previous_op, SsbLabelJump):
             # We need a jump now. We didn't have one but now we will.
-            self.write_stmnt(f"jump @label_{label_id};")
+            self.write_jump(label_id)
         elif previous_op.get_marker() is None:
             # Normal jump, just print that
-            self.write_stmnt(f"jump @label_{label_id};")
+            self.write_jump(label_id)
         elif isinstance(previous_op.get_marker(), ForeverContinue) or isinstance(
             previous_op.get_marker(), ForeverBreak
         ):
@@ -216,7 +239,7 @@ class ExplorerScriptSsbDecompiler:
             pass
         else:
             # Jump as part of a control structure
-            self.write_stmnt(f"jump @label_{label_id};")
+            self.write_jump(label_id)
 
     def source_map_add_opcode(self, op_offset: int) -> None:
         """Has to be called BEFORE writing the opcode."""
